@@ -208,7 +208,23 @@ fn gen_addrs(src: &mut Src) -> Vec<SocketAddr> {
     (0..n)
         .map(|_| {
             let port = src.u16();
-            if src.chance(100) {
+            if src.chance(40) {
+                // addresses of special form: IPv4-mapped / IPv4-compatible IPv6, unspecified, loopback, broadcast, link-local, multicast
+                let (x, y) = (src.u8(), src.u8());
+                let special: [IpAddr; 10] = [
+                    IpAddr::V6(Ipv4Addr::new(192, 0, x, y).to_ipv6_mapped()),
+                    IpAddr::V6(Ipv6Addr::new(0, 0, 0, 0, 0, 0, 0xc000 | x as u16, y as u16)),
+                    IpAddr::V6(Ipv6Addr::UNSPECIFIED),
+                    IpAddr::V6(Ipv6Addr::LOCALHOST),
+                    IpAddr::V4(Ipv4Addr::UNSPECIFIED),
+                    IpAddr::V4(Ipv4Addr::BROADCAST),
+                    IpAddr::V4(Ipv4Addr::LOCALHOST),
+                    IpAddr::V6(Ipv6Addr::new(0xfe80, 0, 0, 0, x as u16, y as u16, 1, 2)),
+                    IpAddr::V6(Ipv6Addr::new(0xff02, 0, 0, 0, 0, 0, 0, x as u16)),
+                    IpAddr::V6(Ipv6Addr::new(0x64, 0xff9b, 0, 0, 0, 0, 0xc000 | x as u16, y as u16)),
+                ];
+                SocketAddr::new(special[src.below(special.len())], port)
+            } else if src.chance(100) {
                 let mut ip = [0u8; 16];
                 fill_stream(src.u16() as u64, &mut ip);
                 SocketAddr::new(IpAddr::V6(Ipv6Addr::from(ip)), port)
